@@ -528,6 +528,62 @@ class ElemArr(object):
         raise Unsupported("astype %r" % (dt,))
 
 
+def m_polyval(interp, x, coeffs, *a, **k):
+    """numpy.polynomial.polynomial.polyval: sum(c[i] * x**i) (coefficients ascending), by Horner over the reals"""
+    M.trusted("numpy.polynomial.polynomial.polyval(x, c) = sum c[i] x^i (ascending coefficients), elementwise")
+    cs = list(interp.iterate(coeffs))
+    if isinstance(x, ListArr):
+        return ListArr([m_polyval(interp, e, cs) for e in x.items], "float64")
+    if not is_sym(x) and not any(is_sym(c) for c in cs):
+        return np.polynomial.polynomial.polyval(x, cs)
+    from .sym import SymReal, z3real
+    if not cs:
+        return 0.0
+    acc = SymReal(z3real(cs[-1])) if not isinstance(cs[-1], SymReal) else cs[-1]
+    xr = x if isinstance(x, SymReal) else SymReal(z3real(x))
+    for c in reversed(cs[:-1]):
+        acc = acc * xr + c
+    return acc
+
+
+NAN = object()
+
+
+def m_piecewise(interp, x, condlist, funclist):
+    """numpy.piecewise, elementwise on one real: funclist[i](x) where condlist[i] holds (later entries
+    override earlier ones); the optional extra entry is the default where no condition holds"""
+    M.trusted("numpy.piecewise(x, conds, funcs): elementwise selection, later conditions override, optional "
+              "default as the extra last entry")
+    from .sym import SymReal, z3real, SymBool, z3bool
+    conds = list(interp.iterate(condlist))
+    funcs = list(interp.iterate(funclist))
+    st = sym.get_state()
+    default = None
+    if len(funcs) == len(conds) + 1:
+        default = funcs[-1]
+        funcs = funcs[:-1]
+    elif len(funcs) != len(conds):
+        from .interp import ProgExc
+        raise ProgExc(ValueError, "piecewise arity")
+    covered = sym_or(*conds) if conds else False
+    if default is not None and isinstance(default, float) and default != default:
+        # NaN default: record whether it can be selected (totality obligation is stated by the contract)
+        st.ghost.setdefault("piecewise_nan_possible", []).append(sym_not(covered))
+        res = SymReal(z3.Real(sym.fresh_name("nan")))
+    elif default is None:
+        res = 0.0
+    else:
+        res = default if not callable(default) else interp.call_value(default, [x], {})
+    for c, f in zip(conds, funcs):
+        val = interp.call_value(f, [x], {}) if callable(f) or hasattr(f, "func") else f
+        if isinstance(c, bool):
+            if c:
+                res = val
+            continue
+        res = SymReal(z3.If(c.e, z3real(val), z3real(res)))
+    return res
+
+
 def m_linspace(interp, start, stop, num=50):
     M.trusted("numpy.linspace(a, b, n): n points a + i*(b-a)/(n-1) (n >= 2), [a] for n == 1, empty for n == 0 "
               "(over the reals)")
@@ -637,16 +693,32 @@ def _bufview_getitem(interp, v, k):
     raise Unsupported("buffer index")
 
 
+def _unary_real(interp, name, x, real_fn):
+    from .sym import SymReal, z3real
+    if isinstance(x, ListArr):
+        return ListArr([_unary_real(interp, name, e, real_fn) for e in x.items], "float64")
+    if not is_sym(x):
+        return real_fn(x)
+    M.trusted("numpy.%s: a real function (uninterpreted; only congruence and stated lemmas are used)" % name.lower())
+    f = z3.Function(name, z3.RealSort(), z3.RealSort())
+    return SymReal(f(z3real(x)))
+
+
 def install(interp, m):
     table = {
         "zeros": lambda *a, **k: m_zeros(interp, *a, **k),
         "empty": lambda *a, **k: m_empty(interp, *a, **k),
         "cumsum": lambda *a, **k: m_cumsum(interp, *a, **k),
         "linspace": lambda *a, **k: m_linspace(interp, *a, **k),
+        "piecewise": lambda *a, **k: m_piecewise(interp, *a, **k),
+        "exp": lambda x: _unary_real(interp, "EXP", x, np.exp),
+        "log": lambda x: _unary_real(interp, "LN", x, np.log),
+        "square": lambda x: x * x,
     }
     from . import timemodel
     timemodel.install(interp, table)
     interp.external["numpy"] = M.NpProxy(np, table)
+    m[np.polynomial.polynomial.polyval] = m_polyval
     m[("getitem", FileArr)] = _filearr_getitem
     m[("getitem", ListArr)] = _listarr_getitem
     m[("getitem", TsArr)] = _tsarr_getitem
